@@ -14,7 +14,8 @@ class Tab(Problem):
     def __init__(self, ns, r, p, v0=None, pol0=None, sdim=1, prob_as_array=False, half_units=False):
         self.ns, self.r, self.p = jnp.array(ns), jnp.array(r, dtype=jnp.float64), jnp.array(p, dtype=jnp.float64)
         self.N, self.A, self.E = np.asarray(ns).shape
-        self.v0 = None if v0 is None else jnp.array(v0, dtype=jnp.float64)
+        # integer-valued initial estimates stay INTEGER-typed (a problem may return `0` or `-state[0]` from initial_value): buffers sized "like the values" must still hold floats later
+        self.v0 = None if v0 is None else (jnp.array(v0) if np.asarray(v0).dtype.kind in "iu" else jnp.array(v0, dtype=jnp.float64))
         self.pol0 = None if pol0 is None else jnp.array(pol0)
         self.sdim = sdim; self.prob_as_array = prob_as_array
         self.half_units = half_units          # states are levels in half units (float state vectors 0.0, 0.5, 1.0, ...): the library allows float states
@@ -37,7 +38,7 @@ class Tab(Problem):
         k = self._k(s); n = self.ns[k, a[0], e[0]]
         if self.half_units: return (0.5 * n).reshape(1), self.r[k, a[0], e[0]]
         return (jnp.array([n, 7 - n % 3]) if self.sdim == 2 else n.reshape(1)), self.r[k, a[0], e[0]]
-    def initial_value(self, s): return 0.0 if self.v0 is None else self.v0[self._k(s)]
+    def initial_value(self, s): return (0 if getattr(self, "int_zero", False) else 0.0) if self.v0 is None else self.v0[self._k(s)]
     def initial_policy(self, s):
         if self.pol0 is None: raise NotImplementedError
         return self.pol0[self._k(s)]
